@@ -77,6 +77,19 @@ class Check:
 
     # ------------------------------------------------------------------
     def finish(self):
+        dump = os.environ.get('VERIF_DUMP_KEYS')
+        if dump:
+            # audit aid (lib/vacuity_audit.py): how many instances each (rule, kind of site) had on this tree
+            import re as _re
+            counts = {}
+            for r in self.obligations:
+                k = '%s|%s' % (r['rule'], _re.split(r'[:@]', r['site'] or '', 1)[0])
+                counts[k] = counts.get(k, 0) + 1
+            try:
+                with open(dump, 'w') as f:
+                    json.dump({'property': self.pid, 'mode': self.extra.get('analysis_mode', []), 'counts': counts}, f)
+            except OSError:
+                pass
         known = load_known()
         out_viol = []
         for rep in self.violations + self.unrecognised:
